@@ -634,6 +634,77 @@ class SimGlob(object):
         raise UnmodelledSyscall("glob.%s" % name)
 
 
+class SimTempfile(object):
+    """Facade for the ``tempfile`` module on the simulated disk (installed only in a lena module
+    that imports tempfile).  Names are made from a counter of the simulated disk and the pid of
+    the running simulated process: unique, as the real ones are, and a function of the tape."""
+
+    def __init__(self, fs, os_facade):
+        self._fs = fs
+        self._os = os_facade
+        self.tempdir = None
+
+    def gettempdir(self):
+        if "/tmp" not in self._fs.dirs:
+            self._fs.makedirs("/tmp", exist_ok=True)
+        return "/tmp"
+
+    def _name(self, suffix, prefix, dir):
+        fs = self._fs
+        fs._tmp_serial = getattr(fs, "_tmp_serial", 0) + 1
+        base = "%s%dx%04d%s" % ("tmp" if prefix is None else prefix, self._os.pid,
+                                fs._tmp_serial, "" if suffix is None else suffix)
+        return posixpath.join(self.gettempdir() if dir is None else dir, base)
+
+    def mktemp(self, suffix="", prefix="tmp", dir=None):
+        return self._name(suffix, prefix, dir)
+
+    def mkstemp(self, suffix=None, prefix=None, dir=None, text=False):
+        path = self._name(suffix, prefix, dir)
+        f = self._fs.open(path, "xb")
+        f.close()
+        return self._os._new_fd(path), path
+
+    def mkdtemp(self, suffix=None, prefix=None, dir=None):
+        path = self._name(suffix, prefix, dir)
+        self._fs.mkdir(path)
+        return path
+
+    def NamedTemporaryFile(self, mode="w+b", buffering=-1, encoding=None, newline=None,
+                           suffix=None, prefix=None, dir=None, delete=True, **kwargs):
+        path = self._name(suffix, prefix, dir)
+        m = mode.replace("+", "") if mode.replace("b", "").replace("t", "") == "w+" else mode
+        f = self._fs.open(path, m.replace("w", "x") if "w" in m else m)
+        if delete:
+            return _DeleteOnClose(f, self._fs, path)
+        return f
+
+    def __getattr__(self, name):
+        raise UnmodelledSyscall("tempfile.%s" % name)
+
+
+class _DeleteOnClose(object):
+    def __init__(self, f, fs, path):
+        self._f, self._fs, self._path = f, fs, path
+        self.name = f.name
+
+    def __getattr__(self, name):
+        return getattr(self._f, name)
+
+    def close(self):
+        if not self._f.closed:
+            self._f.close()
+            if self._fs.exists(self._path):
+                self._fs.remove(self._path)
+
+    def __enter__(self):
+        return self
+
+    def __exit__(self, *exc):
+        self.close()
+        return False
+
+
 class SimOS(object):
     """The `os` module as seen by the code under test."""
 
@@ -668,6 +739,7 @@ class SimOS(object):
         self.environ = {}
         # the process that is running right now (the simulator switches it, see c18.Procs)
         self.pid = 4242
+        self._fds = {}
 
     def getcwd(self):
         return self._fs.CWD
@@ -680,6 +752,27 @@ class SimOS(object):
 
     def fsync(self, fd):
         return None
+
+    # file descriptors exist only as far as tempfile.mkstemp needs them
+    def _new_fd(self, path):
+        fd = 100 + len(self._fds)
+        self._fds[fd] = path
+        return fd
+
+    def fdopen(self, fd, mode="r", *args, **kwargs):
+        path = self._fds.get(fd)
+        if path is None:
+            raise UnmodelledSyscall("os.fdopen of a descriptor the simulation did not hand out")
+        m = mode.replace("+", "")
+        if m.replace("b", "").replace("t", "") == "w":
+            # the file exists and is empty: opening it for writing keeps it
+            return self._fs.open(path, m)
+        return self._fs.open(path, m)
+
+    def close(self, fd):
+        if fd not in self._fds:
+            raise OSError(errno.EBADF, "Bad file descriptor")
+        self._fds[fd] = None
 
     def __getattr__(self, name):
         raise UnmodelledSyscall("os.%s" % name)
